@@ -362,6 +362,11 @@ func (f *File) startSegmentIfNeeded(b Box, boxStartPos uint64) {
 	default:
 		segStart = (segIdx == 0)
 	}
+	if segIdx == 0 {
+		// There must always be a segment to add the fragment to, even if the
+		// first moof/emsg does not start where sidx or tfra say a segment starts.
+		segStart = true
+	}
 	if segStart {
 		f.isFragmented = true
 		ms := MediaSegment{
